@@ -181,7 +181,7 @@ var profC03 = profile{
 	must: []string{"auth"}, may: []string{"logout", "otp", "recover", "remember", "register", "oauth2"},
 	setups: []string{"totp", "sms", "recovery"}, kinds: kindsC03, minOps: 14, maxOps: 34,
 	accts: [2]int{2, 4}, browsers: [2]int{1, 2}, middlewares: []string{"", "", "remember"},
-	faultPct: 8, // the vetoes are safety rules: no failed backend call may let a locked / unconfirmed account in
+	faultPct:   8, // the vetoes are safety rules: no failed backend call may let a locked / unconfirmed account in
 	jsonMangle: 4,
 	tweak: func(t *rapid.T, c *harness.Config) {
 		// lock and/or confirm are always present, at a generated position in the load order
